@@ -107,6 +107,22 @@ def _recipe(draw):
             attrs = draw(_attrs(for_relation=True))
             ident = _name(draw, ["r1", "r2", "r3", "g1"]) if identified else None
             ops.append(["rec", scope, kind, ident, formal, attrs, "factory" if (fac_id or not identified) else "new_record"])
+    # several relations of one kind on the SAME subject (different objects / roles / plans)
+    for sel, in draw(st.lists(st.tuples(st.integers(0, 30)), max_size=2)):
+        rels = [o for o in ops if o[0] == "rec" and o[2] in REL_KINDS]
+        if not rels:
+            break
+        o = rels[sel % len(rels)]
+        fargs = spec.formal_args(o[2])
+        formal = dict(o[4])
+        formal[fargs[1][0]] = {"name": _name(draw)}
+        for a, t in fargs[2:]:
+            if draw(st.booleans()):
+                formal[a] = {"name": _name(draw)} if t == "ref" else {"t": draw(gen.datetime_iso("rdf")), "as": "dt"}
+            else:
+                formal.pop(a, None)
+        ident = None if o[3] is None else _name(draw, ["r4", "r5"])
+        ops.append(["rec", o[1], o[2], ident, formal, draw(_attrs(for_relation=True)), o[6]])
     return {"profile": "rdf", "ops": ops}
 
 
@@ -157,6 +173,7 @@ def sanitise(case, ctx):
     kind_of = {}        # identifier uri -> kind
     rel_forms = {}      # (scope, subject uri, kind) -> 'identified' | 'anon'
     assoc_forms = {}    # (scope, activity uri) -> 'plain' | 'qualified' (anonymous associations)
+    attrs_of = {}       # (scope, id uri) -> attributes of all records with that identifier so far
     formal_of = {}      # (scope, id uri) -> formal dict of the first record with that id (same formal for merges)
     nb = sum(1 for o in case["ops"] if o[0] == "bundle")
     used_scopes = set()
@@ -188,6 +205,11 @@ def sanitise(case, ctx):
                 ctx.count("merged_identifier")
             else:
                 formal_of[key] = formal
+            # the merged record must not hold two ==-equal values of different kind under one attribute
+            prev = attrs_of.setdefault(key, [])
+            kept, _ = gen.normalise_attrs(prev + [list(a) for a in attrs])
+            attrs = kept[len(prev):]
+            attrs_of[key] = kept
         if not is_el:
             subj = formal[fargs[0][0]]["name"]
             sk = (scope, subj["ns"] + subj["local"], kind)
